@@ -95,9 +95,14 @@ func (r *recorder) take() []string {
 }
 
 type recFS struct {
+	// (embedded as well: a method the sys.FS interface gains later is delegated to the wrapped file system instead of
+	// breaking the harness's build - what it does to the host tree is still seen by the snapshot comparison)
+	experimentalsys.FS
 	fs experimentalsys.FS
 	r  *recorder
 }
+
+func newRecFS(inner experimentalsys.FS, r *recorder) *recFS { return &recFS{FS: inner, fs: inner, r: r} }
 
 func (f *recFS) OpenFile(path string, flag experimentalsys.Oflag, perm fs.FileMode) (experimentalsys.File, experimentalsys.Errno) {
 	if f.r.req {
@@ -709,7 +714,7 @@ func (w *world) fsConfig() wazero.FSConfig {
 	case "rec-dir":
 		w.outer = &recorder{req: true}
 		w.inner = &recorder{}
-		mount := &recFS{fs: &sysfs.ReadFS{FS: &recFS{fs: sysfs.DirFS(w.dir), r: w.inner}}, r: w.outer}
+		mount := newRecFS(&sysfs.ReadFS{FS: newRecFS(sysfs.DirFS(w.dir), w.inner)}, w.outer)
 		return c.(expsysfs.FSConfig).WithSysFSMount(mount, "/")
 	case "gofs-osdir":
 		return c.WithFSMount(os.DirFS(w.dir), "/")
@@ -916,7 +921,7 @@ func sweepOflags() {
 	real := &sysfs.ReadFS{FS: sysfs.DirFS(dir)}
 	for _, f := range words {
 		rec := &recorder{}
-		ro := &sysfs.ReadFS{FS: &recFS{fs: stubFS{}, r: rec}}
+		ro := &sysfs.ReadFS{FS: newRecFS(stubFS{}, rec)}
 		file, errno := ro.OpenFile("x", experimentalsys.Oflag(f), 0o600)
 		below := rec.take()
 		var got string
@@ -1004,7 +1009,7 @@ func sweepMethods() {
 		var file experimentalsys.File
 		var topic string
 		if kind == "readfs" {
-			fsys = &sysfs.ReadFS{FS: &recFS{fs: okFS{}, r: rec}}
+			fsys = &sysfs.ReadFS{FS: newRecFS(okFS{}, rec)}
 			file, _ = fsys.OpenFile("x", experimentalsys.O_RDONLY, 0)
 			topic = "serve"
 		} else {
